@@ -120,10 +120,6 @@ def snd13 (H : Crypto.Prims) (sp : SuiteSpec) (chts shts cats sats : Bytes) : Sn
   ⟨SDir.init (tls13WriteKey h chts sp.keyLen) (tls13WriteIv h chts) (tls13WriteKey h cats sp.keyLen) (tls13WriteIv h cats),
    SDir.init (tls13WriteKey h shts sp.keyLen) (tls13WriteIv h shts) (tls13WriteKey h sats sp.keyLen) (tls13WriteIv h sats)⟩
 
-/-- the protocol versions below TLS 1.3 as the hellos name them -/
-def wireVersion : ProtocolVersion → Bytes
-  | .ssl30 => [3, 0] | .tls10 => [3, 1] | .tls11 => [3, 2] | .tls12 => [3, 3]
-
 /-! ### NSS key-log labels -/
 
 def ascii (s : String) : List Nat := s.toList.map (·.toNat)
